@@ -329,6 +329,9 @@ func partB(r *vlib.Run) {
 		{{0, 0, 100000, 1, 0}, {1, 0, 90000, 0, 0}},
 		{{2, 0, 100000, 9, 0}},
 		{{0, 0, 100000, 0, 0}, {2, 0, 90000, 9, 0}, {1, 0, 80000, 0xEE, 0}},
+		// a transaction that verifies but executes as invalid while reporting events: skipped, nothing of it in the roots
+		{{0, 0, 100000, 6, 0}, {1, 0, 90000, 0, 0}},
+		{{0, 0, 100000, 0, 0}, {0, 1, 90000, 6, 0}, {1, 0, 50000, 0, 0}},
 	}
 	for prefix := 0; prefix <= 5; prefix++ {
 		for pi, pool := range pools {
